@@ -13,7 +13,7 @@
 From Coq Require Import List ZArith String Bool Permutation.
 From NIC Require Import Base.SMap AppProtect.Model AppProtect.Spec AppProtect.ProofsBase AppProtect.ProofsSig
      AppProtect.ProofsInv AppProtect.ProofsAnswers AppProtect.ProofsReport AppProtect.ProofsReport2
-     AppProtect.ProofsFinal AppProtect.ProofsRefuted.
+     AppProtect.ProofsFinal AppProtect.ProofsRefuted AppProtect.ProofsCtl.
 Import ListNotations.
 Open Scope string_scope.
 Open Scope Z_scope.
@@ -184,6 +184,23 @@ Theorem C19_usersig_problems_reported :
     exists c, In (prob KUserSig key c) (o_problems (snd (step fx st ev))).
 Proof. exact @usersig_problems_reported. Qed.
 Print Assumptions C19_usersig_problems_reported.
+
+(* The controller projection (syncAppProtectUserSig -> processAppProtectUserSigChange ->
+   RefreshAppProtectUserSigs): the sets index.conf tells NGINX to load are exactly the signature sets in
+   force -- including the transition to the empty set -- after every history in which no DeleteUserSig
+   hits a key that is not stored.  FULL STATEMENT (false, see C19_files_refuted): for every history. *)
+Theorem C19_files_are_sets_in_force_partial :
+  forall (fx en : bool) (evs : list event),
+    effective_from (fx := fx) (init en) evs ->
+    forall key, In key (snd (ctl_run fx en evs)) <-> usable (fst (ctl_run fx en evs)) KUserSig key = true.
+Proof. exact @files_follow. Qed.
+Print Assumptions C19_files_are_sets_in_force_partial.
+
+Theorem C19_files_refuted : forall fx : bool,
+  exists (evs : list event) (k : string),
+    usable (fst (ctl_run fx true evs)) KUserSig k = true /\ snd (ctl_run fx true evs) = [].
+Proof. exact files_refuted. Qed.
+Print Assumptions C19_files_refuted.
 
 (* ------------------------------------------------------------------------------------------ *)
 (* Non-vacuity: a history with a timestamp tie decided by the uid, a tag change, a malformed
